@@ -106,6 +106,7 @@ type RunConfig struct {
 	KeepScripts     bool
 	Samples         int // completed paths for which a model and observations are extracted
 	StopOnViolation bool
+	Params          map[string]int
 	Trace           bool
 	Deadline        time.Time
 }
@@ -432,6 +433,9 @@ func (w *worker) runPath(prefix []traceEntry) (res *PathResult) {
 func box2(v value) *value { return &v }
 
 func posDetail(p *pathState) string {
+	if p.sched != nil && p.sched.cur != nil && p.lastFrame != nil {
+		return " @ " + stackString(p.lastFrame)
+	}
 	return ""
 }
 
@@ -468,7 +472,7 @@ func (w *worker) recordPanic(p *pathState, msg string) {
 	p.res.Asserts++
 	_, m := w.solver.check(p.pc, true, p.drawTerms())
 	model, order := p.modelOf(m)
-	p.res.Violations = append(p.res.Violations, Violation{Kind: "panic", Msg: msg, Model: model, Order: order, Notes: append([]string{}, p.notes...), Script: Script(p.pc)})
+	p.res.Violations = append(p.res.Violations, Violation{Kind: "panic", Msg: msg, Pos: p.panicStack, Model: model, Order: order, Notes: append([]string{}, p.notes...), Script: Script(p.pc), Known: append([]string{}, p.known...)})
 }
 
 func (w *worker) sample(p *pathState) {
